@@ -147,6 +147,7 @@ Attributes: Logarithms
 """
 
 import math
+import threading
 from collections import defaultdict
 from decimal import Decimal
 from functools import lru_cache, total_ordering
@@ -186,6 +187,11 @@ __version__ = version("measured")
 
 NUMERIC_CLASSES = (int, float, Decimal)
 Numeric = Union[int, float, Decimal]
+
+# Dimensions, Prefixes, Units and Logarithms are interned singletons.  This lock makes
+# the check-then-insert of their constructors atomic, so that threads constructing
+# the same value for the first time at the same time all get the same object.
+_intern_lock = threading.RLock()
 
 
 class FractionalDimensionError(ValueError):
@@ -302,10 +308,14 @@ class Dimension:
         if key in cls._known:
             return cls._known[key]
 
-        self = super().__new__(cls)
-        self._initialized = False
-        cls._known[key] = self
-        return self
+        with _intern_lock:
+            if key in cls._known:
+                return cls._known[key]
+
+            self = super().__new__(cls)
+            self._initialized = False
+            cls._known[key] = self
+            return self
 
     def __init__(
         self,
@@ -643,10 +653,14 @@ class Prefix:
         if key in cls._known:
             return cls._known[key]
 
-        self = super().__new__(cls)
-        self._initialized = False
-        cls._known[key] = self
-        return self
+        with _intern_lock:
+            if key in cls._known:
+                return cls._known[key]
+
+            self = super().__new__(cls)
+            self._initialized = False
+            cls._known[key] = self
+            return self
 
     def __init__(
         self,
@@ -901,15 +915,19 @@ class Unit:
         if key in cls._known:
             return cls._known[key]
 
-        if name and name in cls._by_name:
-            return cls._by_name[name]
+        with _intern_lock:
+            if key in cls._known:
+                return cls._known[key]
 
-        self = super().__new__(cls)
-        self._initialized = False
-        if not factors:
-            key = cls._build_key(prefix, {self: 1})
-        cls._known[key] = self
-        return self
+            if name and name in cls._by_name:
+                return cls._by_name[name]
+
+            self = super().__new__(cls)
+            self._initialized = False
+            if not factors:
+                key = cls._build_key(prefix, {self: 1})
+            cls._known[key] = self
+            return self
 
     def __init__(
         self,
@@ -1630,10 +1648,14 @@ class Logarithm:
         if key in cls._known:
             return cls._known[key]
 
-        self = super().__new__(cls)
-        self._initialized = False
-        cls._known[key] = self
-        return self
+        with _intern_lock:
+            if key in cls._known:
+                return cls._known[key]
+
+            self = super().__new__(cls)
+            self._initialized = False
+            cls._known[key] = self
+            return self
 
     def __init__(
         self,
@@ -1724,10 +1746,14 @@ class LogarithmicUnit:
         if key in cls._known:
             return cls._known[key]
 
-        self = super().__new__(cls)
-        self._initialized = False
-        cls._known[key] = self
-        return self
+        with _intern_lock:
+            if key in cls._known:
+                return cls._known[key]
+
+            self = super().__new__(cls)
+            self._initialized = False
+            cls._known[key] = self
+            return self
 
     def __init__(
         self,
